@@ -13,6 +13,7 @@ import TrVerif.Props.NoExc
 import TrVerif.Props.C10e
 import TrVerif.Props.C07Fwd2
 import TrVerif.Props.C12Shift
+import TrVerif.Props.C12MapStatus
 import TrVerif.Props.C12
 import TrVerif.Props.C16
 namespace Tr
@@ -151,5 +152,13 @@ theorem nv_shift_maps : C08Dom nvDs nvFwd2 ∧ C09Dom nvDs nvRev := by
   obtain ⟨hr2, hegr, _, _, _⟩ := nv_hypotheses_reverse
   exact ⟨⟨hwf, rfl, by decide, by decide, htb, hpos, hself, hr1, by decide, hacc, hand, by decide, by decide⟩,
     ⟨hwf, rfl, by decide, by decide, hpos, hr2, hegr, hend, by decide, rfl⟩⟩
+
+/-- ... and the arrival times of the shifted dataset are clock times too -/
+theorem nv_shift_nonneg : NonnegArr (shiftDs 3600 nvDs) := by
+  have hal : TripsAligned nvDs := nv_shift.2.2.1
+  have h1 : nvDs.conns = [⟨0, 1, 1000, 1300, 5, 1, true, true, -1⟩] := by decide
+  intro c hc
+  obtain ⟨c0, h0, rfl⟩ := mem_conns_shift hal hc
+  rw [h1] at h0; simp at h0; subst h0; decide
 
 end Tr
